@@ -119,11 +119,24 @@ MODULES = ['base', 'Angle', 'Epoch', 'Interpolation', 'CurveFitting', 'Coordinat
            'Neptune', 'JupiterMoons']
 
 
+def _plain(v, d=0):
+    """True for nested list/tuple/number/str data that pickle can serialise at C speed."""
+    if isinstance(v, (float, int, str, bool, type(None))):
+        return True
+    if isinstance(v, (list, tuple)):
+        if d > 1:
+            return True   # deep coefficient tables: trust the outer levels, pickle validates the rest
+        return all(_plain(x, d + 1) for x in v[:50])
+    return False
+
+
 def _norm(v):
     """Canonical picklable form of a module-level constant."""
     if isinstance(v, dict):
         return ('dict', tuple(sorted((repr(k), _norm(x)) for k, x in v.items())))
     if isinstance(v, (list, tuple)):
+        if _plain(v):
+            return v          # pickled as is (floats as 8 IEEE bytes, ints as ints): bit-exact and fast
         return (type(v).__name__, tuple(_norm(x) for x in v))
     if isinstance(v, float):
         return v.hex()
